@@ -3,6 +3,8 @@
  *  lin <init> <t0ops> <t1ops> [<t2ops>]   threads run their op lists on one shared word; brute-force linearizability
  *        op codes: i inc | a<k> add | d dec_and_test | c<e>:<n> cas | n<m> and | o<m> or | x<m> xor | s<v> set | g get ; prefix P = pointer op
  *  mp <i|p>                    message passing through set/get: the happens-before monitor must stay silent on the payload
+ *  sb <ii|pp|ip>                store-buffering (Dekker) litmus through set/get under the runtime's x86-TSO store buffers (-B): each thread sets its own
+ *                              word and then gets the other's; both reading the old value means set/get let a load pass the earlier store
  *  barrier                     every set/get must contain a full barrier (accounted by the runtime from the memory orders it is handed)
  */
 #include <plibsys.h>
@@ -191,6 +193,31 @@ static void h_mp(int argc, char **argv)
     mc_outcome("seen=%ld", seen);
 }
 
+/* ------------------------------------------------------------------ store buffering through set/get */
+static volatile pint sbx, sby; static volatile psize sbpx, sbpy; static long sbr[2] = {-1, -1};
+static const char *sbmode = "ii";
+static void *sb_thread(void *a)
+{
+    int me = a != NULL, ptr = sbmode[me] == 'p', optr = sbmode[!me] == 'p';
+    if (ptr) p_atomic_pointer_set(me ? &sbpy : &sbpx, (ppointer)8); else p_atomic_int_set(me ? &sby : &sbx, 1);
+    sbr[me] = optr ? (long)(psize)p_atomic_pointer_get(me ? &sbpx : &sbpy) : (long)p_atomic_int_get(me ? &sbx : &sby);
+    return NULL;
+}
+static void h_sb(int argc, char **argv)
+{
+    int a, b;
+    if (argc > 0 && strlen(argv[0]) == 2) sbmode = argv[0];
+    a = mc_thread_create(sb_thread, NULL); b = mc_thread_create(sb_thread, (void *)1);
+    mc_thread_join(a); mc_thread_join(b);
+    if (sbr[0] == 0 && sbr[1] == 0) {
+        char sig[48]; snprintf(sig, sizeof sig, "sb/load-passed-store/%s", sbmode);
+        mc_fail("C04", sig, "store buffering: both threads executed set(own word) and then get(other word) and both read the old value 0: "
+                "set/get did not act as a full barrier between the store and the following load");
+    }
+    mc_nontrivial(0);
+    mc_outcome("r0=%ld r1=%ld", sbr[0], sbr[1]);
+}
+
 /* ------------------------------------------------------------------ full-barrier accounting */
 static void h_barrier(int argc, char **argv)
 {
@@ -213,5 +240,6 @@ static const McHarness HS[] = {
     {"lin", h_lin, "<init> <ops> <ops> [<ops>]"},
     {"mp", h_mp, "<i|p>"},
     {"barrier", h_barrier, ""},
+    {"sb", h_sb, "<ii|pp|ip>"},
 };
-int main(int argc, char **argv) { return mc_main(argc, argv, HS, 4); }
+int main(int argc, char **argv) { return mc_main(argc, argv, HS, 5); }
